@@ -86,3 +86,9 @@
 ; "terminating by the Go specification" for the statements pass 2 hands to the checker, with the
 ; set of panic call sites existentially fixed by the matcher (abstract here): used only abstractly
 (declare-fun SpecTermAny (Iface) Bool)
+; strings built by gensym: decimal rendering and concatenation, abstract; injectivity is the (assumed) property used by C15
+(declare-fun itoaS (Int) Str)
+(declare-fun strcat (Str Str) Str)
+; go/types information, abstract: the callee object of a call and the type of an expression
+(declare-fun calleeOf (Ref) Iface)
+(declare-fun typeOfExpr (Iface) Iface)
